@@ -400,6 +400,9 @@ def run_mtest(text, name=None, args=(), env_extra=None, ext=".mtest", verbose="q
     env.pop("VERIF_FAULTS", None)
     if env_extra:
         env.update(env_extra)
+    # sensitivity runs: an alternative (mutated) libTFELMTest.so preloaded into mtest only (mutants/C48.md)
+    if os.environ.get("VERIF_MTEST_PRELOAD"):
+        env["LD_PRELOAD"] = os.environ["VERIF_MTEST_PRELOAD"]
     cmd = [tool("mtest"), "--verbose=" + verbose] + list(args) + [base + ext]
     rc, so, se = run(cmd, cwd=d, timeout=timeout, env=env)
     out = so + "\n" + se
@@ -450,7 +453,8 @@ def run_hypothesis_batched(unit, sub, strategy, check_fn, max_examples, batch=6,
 
     @seed(SEED + seed_offset)
     @settings(max_examples=nb, database=None, deadline=None, derandomize=False, report_multiple_bugs=False,
-              suppress_health_check=list(HealthCheck), phases=[Phase.generate, Phase.shrink])
+              suppress_health_check=list(HealthCheck),
+              phases=[Phase.generate] if os.environ.get("VERIF_NO_SHRINK") == "1" else [Phase.generate, Phase.shrink])
     @given(st.lists(strategy, min_size=1, max_size=batch))
     def prop(cases):
         if "case" not in last:
@@ -710,3 +714,25 @@ def compare_results(pb, R, P, nsteps, eeps, seps, cband, errs=None, tag=""):
             if errs is not None:
                 errs[k + tag] = max(errs.get(k + tag, 0.), e / tol)
     return None
+
+
+# ------------------------------------------------------------------ known finding: end of period missed
+# GenericSolver::execute (GenericSolver.cxx:239,276) ends a period when |te - t| < 100 eps (te - ti): the slack is
+# relative to the length of the period although the rounding error of the accumulated time `t += dt` is relative to
+# |t|.  After a rejected step (dt halved, then 2^k additions) t can sit a few ulp(t) before te; when
+# te - ti <~ 0.03 |te| that is more than the slack, the loop performs one more sub-step of length dt beyond te and
+# the state printed at te is the state at te + dt (findings/pending/C48.json).
+SHORT_PERIOD_RATIO = 0.05
+
+
+def is_short_period(ti, te):
+    return (te - ti) < SHORT_PERIOD_RATIO * max(abs(ti), abs(te))
+
+
+def has_short_period(times):
+    return any(is_short_period(a, b) for a, b in zip(times, times[1:]))
+
+
+def has_missed_end_signature(instants):
+    """accepted instants of an EveryPeriod result file: an accepted sub-step within a few ulp before the next instant"""
+    return any(0 < (b - a) < 1e-13 * max(abs(a), abs(b)) for a, b in zip(instants, instants[1:]))
